@@ -8,7 +8,7 @@ NAMES = ['n', 'n2', 'o']
 MUTABLE = ['main', 'd1/a', 'd1/b', 'd2/a']
 IGNORED = ['d1/.hidden', 'd1/sub']
 KINDS = ['new', 'old', 'alias', 'both', 'fixed']
-VARIANTS = ['plain', 'renamed', 'same', 'split', 'renamed_same', 'same_same', 'removal', 'renamed_any', 'same_any', 'any_new']
+VARIANTS = ['plain', 'renamed', 'same', 'split', 'renamed_same', 'same_same', 'removal', 'renamed_any', 'same_any', 'any_new', 'shared_same']
 
 
 def stamp(f, t):
@@ -24,6 +24,8 @@ def content(kind, f, t):
         return {'o': {'k': 'alias', 'n': 'n'}}
     if kind == 'fixed':
         return {'n': {'k': 'roles', 'r': [f + '@fixed']}}
+    if kind == 'oldasnew':
+        return {'o': {'k': 'roles', 'r': ['dflt'], 'text': 'role:dflt'}}
     if kind == 'rolenew':
         return {'o': {'k': 'roles', 'r': ['n']}}
     if kind == 'oldsame':
@@ -65,6 +67,9 @@ def defaults_for(variant, style=0, reason='r', since='s'):
             'o' if variant == 'renamed_any' else 'n', ['', '@', '@ or @'][style % 3], deprecated_reason=reason, deprecated_since=since))]
     if variant == 'any_new':
         return [policy.RuleDefault('n', ['', '@'][style % 2], deprecated_rule=dep, scope_types=sc)]
+    if variant == 'shared_same':
+        return [policy.RuleDefault('o', new_s, scope_types=sc, deprecated_rule=policy.DeprecatedRule('o', old_s, deprecated_reason=reason, deprecated_since=since)),
+                policy.RuleDefault('n', new_s, deprecated_rule=dep, scope_types=sc)]
     if variant == 'same_same':
         return [policy.RuleDefault('n', new_s, scope_types=sc, deprecated_rule=policy.DeprecatedRule(
             'n', new_s, deprecated_reason=reason, deprecated_since=since))]
